@@ -49,6 +49,8 @@ class PropertyRun:
         self.bounded: List[Dict] = []
         self.assumptions: List[str] = []
         self.extra: Dict = {}
+        self.canaries_verified: List[str] = []
+        self.canaries_empty: List[str] = []
 
     # ------------------------------------------------------------------ VC generation
     def gen_fn(self, qual: str, label: Optional[str] = None, canary: bool = False) -> List[VC]:
@@ -198,10 +200,10 @@ def _run(pr: PropertyRun, mod) -> int:
             v.func = f"canary:{name}"
         canary_vcs.extend(got)
         if not got:
-            pr.engine_faults.append(f"canary {name} generated no obligation")
+            pr.canaries_empty.append(name)
 
     thorough = pr.tier == "thorough"
-    results = solve.solve_all(pr.vcs + canary_vcs, pr.ex.global_axioms, thorough=thorough)
+    results = solve.solve_all(pr.vcs + canary_vcs, pr.ex.global_axioms, thorough=thorough, light_from=len(pr.vcs))
     main = results[:len(pr.vcs)]
     can = results[len(pr.vcs):]
     by_canary: Dict[str, List[str]] = {}
@@ -212,13 +214,21 @@ def _run(pr: PropertyRun, mod) -> int:
         proved = all(s == "unsat" for s in sts)
         pr.canary_results.append({"canary": name, "refuted_as_expected": ok, "statuses": sts})
         if proved:
-            # a deliberately false clause that verifies: the pipeline is vacuous or unsound -> engine fault
-            pr.engine_faults.append(f"canary {name} was verified instead of refuted ({sts})")
-        elif not ok:
-            print(f"NOTE property={pid} canary {name} inconclusive on this tree ({sorted(set(sts))}): neither refuted nor verified")
+            pr.canaries_verified.append(name)
+        # (a canary that is neither refuted nor verified still shows the pipeline is not vacuous: the false clause was NOT proved)
 
     refuted = [r for r in main if r.status == "sat"]
     unknown = [r for r in main if r.status not in ("sat", "unsat")]
+    if pr.canaries_empty and not refuted and not unknown and not pr.undecided:
+        pr.engine_faults.append(f"canaries generated no obligation: {pr.canaries_empty}")
+    if pr.canaries_verified:
+        if not refuted and not unknown and not pr.undecided:
+            # every real obligation discharged AND a deliberately false clause verified: the pipeline is vacuous or unsound -> engine fault
+            pr.engine_faults.append(f"canaries verified instead of refuted: {pr.canaries_verified}")
+        else:
+            # the tree no longer verifies against its contracts while it does verify against a deliberately wrong one: consistent with the
+            # code having changed towards the wrong behaviour; not an engine fault, the open obligations decide
+            print(f"NOTE property={pid} the code now satisfies the deliberately wrong clause(s) {pr.canaries_verified}")
     dump = os.environ.get("VERIF_DUMP")
     if dump:
         os.makedirs(dump, exist_ok=True)
@@ -333,7 +343,9 @@ def _run(pr: PropertyRun, mod) -> int:
                 if not v.get("reproduced"):
                     v["reproduced"], v["replay"] = True, path
         else:
-            violations.append({"obligation": "bounded:e2e_small_histories", "replay": path, "reproduced": True})
+            und = [u["obligation"] for u in pr.undecided if not u["obligation"].endswith("/*")] or [u["obligation"] for u in pr.undecided]
+            name = (und[0] + " [undecided by the solver; failing history found by the bounded native stand-in]") if und else "bounded:e2e_small_histories"
+            violations.append({"obligation": name, "replay": path, "reproduced": True})
     for b in bounded_fail:
         finding = match_finding(known, pid, "bounded:" + b["name"])
         if finding is not None:
